@@ -13,6 +13,10 @@ import GqlVerif.Proofs.C01DenyFragWitness
 import GqlVerif.Proofs.C01MixedE
 import GqlVerif.Proofs.C01MixedF
 import GqlVerif.Proofs.C01MixedG
+import GqlVerif.Proofs.ModuleOkInputsMore
+import GqlVerif.Proofs.ModuleOkInputsClasses
+import GqlVerif.Proofs.C01MixedContentW
+import GqlVerif.Proofs.C01MixedContentSkip
 open GqlVerif.C01
 #print axioms accepts_mono
 #print axioms conforming_int_accepted
@@ -206,3 +210,63 @@ open GqlVerif.C01
 #print axioms GqlVerif.C01M.mixed_keys_needed
 #print axioms GqlVerif.C01M.mixed_rust_needed
 #print axioms GqlVerif.C01M.mixed2_oi_needed
+-- moduleOk, the side condition of every end-to-end theorem, as a decidable predicate on the INPUT (Proofs/ModuleOkInputs*.lean, P42)
+#print axioms GqlVerif.MOK.enumItem_tablesWf_iff
+#print axioms GqlVerif.MOK.module_item_names
+#print axioms GqlVerif.MOK.moduleOk_iff_inputs
+#print axioms GqlVerif.MOK.moduleOk_of_inputs
+#print axioms GqlVerif.MOK.moduleOk_eq_inputs
+#print axioms GqlVerif.MOK.moduleOkIn_iff
+#print axioms GqlVerif.MOK.moduleOkIn_noClash
+#print axioms GqlVerif.MOK.with_inputs
+#print axioms GqlVerif.MOK.reviewer_counterexample
+#print axioms GqlVerif.MOK.reviewer_counterexample_output
+#print axioms GqlVerif.MOK.ex_in
+#print axioms GqlVerif.MOK.px_class
+#print axioms GqlVerif.MOK.px_in
+#print axioms GqlVerif.MOK.px_roundtrip
+#print axioms GqlVerif.MOK.tree_roundtrip_inputs
+#print axioms GqlVerif.MOK.tree_accepts_inputs
+#print axioms GqlVerif.MOK.variant_roundtrip_inputs
+#print axioms GqlVerif.MOK.fragment_roundtrip_inputs
+#print axioms GqlVerif.MOK.mixed_roundtrip_inputs
+#print axioms GqlVerif.MOK.variantspread_roundtrip_inputs
+#print axioms GqlVerif.MOK.variantspread_roundtrip_content_inputs
+#print axioms GqlVerif.MOK.mixed_roundtrip_on_F_inputs
+#print axioms GqlVerif.MOK.recfragment_roundtrip_inputs
+#print axioms GqlVerif.MOK.variantspread2_roundtrip_inputs
+#print axioms GqlVerif.MOK.treeD_roundtrip_inputs
+#print axioms GqlVerif.MOK.treeD_roundtrip_of_erased_inputs
+#print axioms GqlVerif.MOK.treeR_roundtrip_inputs
+#print axioms GqlVerif.MOK.fragD_roundtrip_inputs
+#print axioms GqlVerif.MOK.tree_roundtrip_rust_inputs
+#print axioms GqlVerif.MOK.variant_roundtrip_rust_inputs
+#print axioms GqlVerif.MOK.fragment_roundtrip_rust_inputs
+#print axioms GqlVerif.MOK.recfragment_roundtrip_rust_inputs
+#print axioms GqlVerif.MOK.variantspread_roundtrip_rust_inputs
+#print axioms GqlVerif.MOK.variantspread2_roundtrip_rust_inputs
+-- content theorem for MixedOp / MixedOp2 / FragmentOp (Proofs/C01MixedContent*.lean, P43)
+#print axioms GqlVerif.C01M.bodyM_content
+#print axioms GqlVerif.C01M.mixed_content
+#print axioms GqlVerif.C01M.mixed_roundtrip_content
+#print axioms GqlVerif.C01M.mixed2_content
+#print axioms GqlVerif.C01M.mixed2_roundtrip_content
+#print axioms GqlVerif.C01M.mixed_content_on_S
+#print axioms GqlVerif.C01M.mixed_content_on_F
+#print axioms GqlVerif.C01M.fragment_roundtrip_content
+#print axioms GqlVerif.C01M.mx_roundtrip_content
+#print axioms GqlVerif.C01M.mx_content
+#print axioms GqlVerif.C01M.mx2_roundtrip_content
+#print axioms GqlVerif.C01M.ex_roundtrip_content
+#print axioms GqlVerif.C01M.ex_content
+#print axioms GqlVerif.C01M.sameContent_mx_barks
+#print axioms GqlVerif.C01M.mx_barks_survives
+#print axioms GqlVerif.C01M.keys_loss_not_sameContent
+#print axioms GqlVerif.C01M.k_roundtrip
+#print axioms GqlVerif.C01M.mixed_keys_needed_content
+#print axioms GqlVerif.C01M.oi_loss_not_sameContent
+#print axioms GqlVerif.C01M.mixed2_oi_needed_content
+#print axioms GqlVerif.C01M.sk_roundtrip_content
+#print axioms GqlVerif.C01M.sk_roundtrip
+#print axioms GqlVerif.C01M.sk_content
+#print axioms GqlVerif.C01M.sk_not_content_noskip
